@@ -15,12 +15,13 @@ the hex text, so that the empty string is visible.
                           is_alphabetic / is_alphanumeric), `pyalnum`,
                           `pydecimal`, `pyalpha` (CPython).      -> `ok`
   Q <hex s> <hex lower>   all string quoting functions on `s`; `lower` is what
-                          `str.lower()` answers for `s`.  -> 12 fields:
+                          `str.lower()` answers for `s`.  -> 13 fields:
                           escape_string quote_literal dollar_quote_literal
                           visit_Constant quote_ident quote_ident(force)
                           quote_ident(allow_reserved) quote_ident(allow_num)
                           pg.quote_literal pg.quote_e_literal pg.quote_ident
-                          pg.quote_ident(column)
+                          pg.quote_ident(column) param_to_str
+  T <hex body>            the dollar tags dbops picks for this body: DO block, function text
   B <hex bytes>           visit_BytesConstant, quote_bytea_literal
   N <hex name> <hex hash> <prefix_length>   edgedb_name_to_pg_name; `hash` = base64(md5(name)) without `=`
   L <hex text>            Lex.lexOne ∘ Lex.skipWs (as `Tokenizer::new` + `next`): `ok <kind> <valkind> =<val> <consumed>` | `err <class>`
@@ -116,7 +117,8 @@ def step (st : DS) (line : String) : DS × String :=
         fld (Quote.quoteIdent P s false false false), fld (Quote.quoteIdent P s true false false),
         fld (Quote.quoteIdent P s false true false), fld (Quote.quoteIdent P s false false true),
         fld (Quote.pgQuoteLiteral s), fld (Quote.pgQuoteELiteral s),
-        fld (Quote.pgQuoteIdent P s false false), fld (Quote.pgQuoteIdent P s false true)])
+        fld (Quote.pgQuoteIdent P s false false), fld (Quote.pgQuoteIdent P s false true),
+        fld (Quote.paramToStr P s)])
     | _, _ => (st, "bad-op")
   | ["B", h] =>
     match unhexB h with
@@ -129,6 +131,10 @@ def step (st : DS) (line : String) : DS × String :=
       | some r => (st, fld r)
       | none => (st, "!ValueError")
     | _, _, _ => (st, "bad-op")
+  | ["T", h] =>
+    match unhexStr h with
+    | some s => (st, fldO (Quote.doTag s) ++ " " ++ fldO (Quote.funcTag s))
+    | none => (st, "bad-op")
   | ["L", h] =>
     match unhexStr h with
     | some s =>
